@@ -33,6 +33,13 @@ ASSUMPTIONS = [
     'a tree leaf is overwritten only under patterns that end in a wildcard (under a constant leaf the edited tree would no longer be the image of a table)',
     'classes 21, 22, 24, 25, 27 of the brief are outside the quantifier (no stamps, no tabulated domain - tree_getitem is only claimed for listed paths -, patterns are strings, no arrays, no float leaves); '
     'class 23: the paths of a dict u are distinct and none is the source of another, crossing branch objects between t and u is the existing u_holds / u_is class',
+    'branches whose class DERIVES from dict / Dict / dictattr (one kind per case: collections.OrderedDict, class Config(Dict), class Section(dictattr), class MyDict(dict)) occur in a share of the flatten and merge cases, '
+    'below the root of t and u and, in the merge, also as the root of t or of u. The library flattens with type(x) in types and copies / walks down with isinstance, so whether such a node counts as a branch (merged into, '
+    'flattened) or as a leaf (hung / listed as a whole) is NOT fixed by the statement: for the VALUE of a merge each of the four readings (t side / u side, branch / leaf) is accepted, and tree_items may list such a node either way. '
+    'What is demanded on these trees is what holds under every reading: neither t nor u is modified at any depth (structure, classes and identity of every node), tree_update(t, t) == t, tree_update(t, {}) == t, '
+    'tree_keys / tree_values follow the SAME reading as tree_items, items_to_tree(tree_items(t)) == t, tree_getitem returns what tree_items lists, flattening leaves t alone. '
+    'The root of a flattened tree is always dict / Dict / dictattr (a root of another class is one leaf for tree_items and has no path); the session sub-check keeps to the three classes '
+    '(the reading taken by an earlier result would have to be guessed)',
 ]
 
 _KEYS = ['a', 'b', 'c', 'd']
@@ -75,14 +82,77 @@ def _leaf(v):
     return _cp(v[1]) if isinstance(v, list) else v
 
 
+_SUBKINDS = ['OrderedDict', 'Config', 'Section', 'MyDict']      # classes that DERIVE from the branch classes: OrderedDict(dict), Config(Dict), Section(dictattr), MyDict(dict)
+_subkind = st.sampled_from(_SUBKINDS)
+_CLS = {}
+
+
+def _cls(name):
+    if name not in _CLS:
+        import collections
+        import pyg_base
+        _CLS.update(dict=dict, Dict=pyg_base.Dict, dictattr=pyg_base.dictattr, OrderedDict=collections.OrderedDict, Config=type('Config', (pyg_base.Dict,), {}),
+                    Section=type('Section', (pyg_base.dictattr,), {}), MyDict=type('MyDict', (dict,), {}))
+    return _CLS[name]
+
+
 def build(s):
     if s[0] == 'leaf':
         return _leaf(s[1])
     d = {k: build(x) for k, x in s[1]}
     if s[0] == 'dict':
         return d
-    import pyg_base
-    return getattr(pyg_base, s[0])(d)
+    return _cls(s[0])(d)
+
+
+class _SubM(dict):
+    """model image of a branch whose class derives from the branch classes (equal to the plain dict of the same content)"""
+
+
+def _retype(draw, s, kind, one_in=2, root=False, path=()):
+    """the tree spec s with the class of its branches below the root (one in `one_in` of them) replaced by the subclass kind; the root too if asked"""
+    if s[0] == 'leaf':
+        return s
+    kids = [[k, _retype(draw, v, kind, one_in, root, path + (k,))] for k, v in s[1]]
+    return [kind if (root and not path) or (path and draw(st.integers(1, one_in)) == 1) else s[0], kids]
+
+
+def _kind_paths(s, prefix=()):
+    """paths of the branches below the root whose class is a derived one"""
+    out = []
+    if s[0] != 'leaf':
+        for k, v in s[1]:
+            if v[0] in _SUBKINDS:
+                out.append(list(prefix + (k,)))
+            out.extend(_kind_paths(v, prefix + (k,)))
+    return out
+
+
+def _graft(draw, u, path, keys, top=True):
+    """u with branches of the three exact classes down `path` and at least one leaf in the branch at its end (what u holds on the way is kept where it is such a branch)"""
+    base = u if u[0] != 'leaf' and (top or u[0] not in _SUBKINDS) else [draw(_btype), []]
+    if not path:
+        return base if _spec_has_leaf(base) else _put(base, draw(st.sampled_from(keys)), ['leaf', draw(_leafv)])
+    child = dict((k, v) for k, v in base[1]).get(path[0], ['leaf', None])
+    return _put(base, path[0], _graft(draw, child, path[1:], keys, False))
+
+
+def _sub_below_root(s, top=True):
+    return s[0] != 'leaf' and ((not top and s[0] in _SUBKINDS) or any(_sub_below_root(v, False) for _, v in s[1]))
+
+
+def _spec_has_leaf(s):
+    return s[0] == 'leaf' or any(_spec_has_leaf(v) for _, v in s[1])
+
+
+def _writes_inside_sub(t, u, top=True):
+    """t holds, below its root, a branch of a derived class at a path where u (through branches of the three exact classes) holds a branch with a leaf in it: the merge walks into t's branch and writes there"""
+    if t[0] == 'leaf' or u[0] == 'leaf' or (not top and u[0] in _SUBKINDS) or not _spec_has_leaf(u):
+        return False
+    if not top and t[0] in _SUBKINDS:
+        return True
+    tk = dict((k, v) for k, v in t[1])
+    return any(k in tk and _writes_inside_sub(tk[k], v, False) for k, v in u[1])
 
 
 def plain(x):
@@ -92,18 +162,20 @@ def plain(x):
     return x
 
 
-def model(s):
-    """plain-dict image straight from the spec (independent of pyg_base)"""
+def model(s, mark=False):
+    """plain-dict image straight from the spec (independent of pyg_base); mark: branches of a derived class become _SubM dicts (same content, recognisable)"""
     if s[0] == 'leaf':
         return _leaf(s[1])
-    return {k: model(x) for k, x in s[1]}
+    d = {k: model(x, mark) for k, x in s[1]}
+    return _SubM(d) if mark and s[0] in _SUBKINDS else d
 
 
-def m_items(m, prefix=()):
-    if isinstance(m, dict):
+def m_items(m, prefix=(), leafy=False):
+    """leafy: the reading in which a branch of a derived class (below the root) is listed as one leaf"""
+    if isinstance(m, dict) and not (leafy and prefix and type(m) is _SubM):
         out = []
         for k, v in m.items():
-            out.extend(m_items(v, prefix + (k,)))
+            out.extend(m_items(v, prefix + (k,), leafy))
         return out
     return [prefix + (m,)]
 
@@ -209,13 +281,16 @@ def _flatten_case(draw):
     elif shape == 'deep':
         for _ in range(draw(st.integers(1, 4))):
             t = [draw(_btype), [[draw(st.sampled_from(keys)), t]]]
+    sub = draw(_subkind) if draw(st.integers(0, 8)) == 0 else None
+    if sub:     # below the root, half of the branches are of a class that derives from dict / Dict / dictattr (the root keeps its class: a root of another class is a single leaf for tree_items)
+        t = _retype(draw, t, sub)
     alias, edit = [], None
     how = draw(st.sampled_from(['none', 'none', 'none', 'edit', 'edit', 'twice']))
     if how == 'twice':
         t, alias = _twice(draw, t, keys)
     elif how == 'edit':
         edit = dict(at=draw(st.integers(0, 200)), op=draw(st.sampled_from(['set', 'add', 'del', 'graft'])), v=draw(_leafv))
-    return dict(t=t, alias=alias, edit=edit, again=draw(st.booleans()), dflt=draw(st.sampled_from(_DFLT)))
+    return dict(t=t, alias=alias, edit=edit, again=draw(st.booleans()), dflt=draw(st.sampled_from(_DFLT)), sub=sub)
 
 
 def _flatten_calls(dflt):
@@ -240,7 +315,11 @@ def _flatten_pass(t, m, again, tag='', dflt=None):
     snap = snapshot(t)
     items = call('tree_items(%s)%s' % (short(t, 150), tag), tree_items, t)
     exp = m_items(m)
-    check(list(items) == exp, 'tree_items(%s)%s = %s, expected the paths %s', t, tag, items, exp)
+    exp_leafy = m_items(m, leafy=True)      # differs only when branches of a derived class occur: tree_items may list them as leaves; tree_keys / tree_values must then do the same
+    two = exp_leafy != exp
+    if two and list(items) == exp_leafy:
+        exp = exp_leafy
+    check(list(items) == exp, 'tree_items(%s)%s = %s, expected the paths %s%s', t, tag, items, exp, '' if not two else ' or, with the branches of a derived class as leaves, %s' % (exp_leafy,))
     keys = call('tree_keys', tree_keys, t)
     check(list(keys) == [i[:-1] for i in exp], 'tree_keys(%s)%s = %s, expected %s', t, tag, keys, [i[:-1] for i in exp])
     vals = call('tree_values', tree_values, t)
@@ -262,6 +341,9 @@ def _flatten_pass(t, m, again, tag='', dflt=None):
             forms.append(('dotted', '.'.join(path)))
         for form, p in forms:
             got = call('tree_getitem(%s, %r)' % (short(t, 100), p), tree_getitem, t, p)
+            if isinstance(leaf, dict):      # a branch of a derived class that tree_items listed as a leaf
+                check(isinstance(got, dict) and type(got) is type(_node(t, path)) and plain(got) == leaf, 'tree_getitem(%s, %r)%s = %s, expected what tree_items lists there: %s', t, p, tag, got, leaf)
+                continue
             check(got == leaf and type(got) is type(leaf), 'tree_getitem(%s, %r)%s = %s, expected the leaf %s', t, p, tag, got, leaf)
     check(snapshot(t) == snap, 'flattening modified the tree%s: now %s', tag, t)
     return exp
@@ -288,7 +370,7 @@ def run_flatten(spec):
     ts = spec['t']
     objs = dict(t=build(ts))
     _apply_alias(objs, spec.get('alias') or [], 't')
-    t, m = objs['t'], model(ts)
+    t, m = objs['t'], model(ts, mark=bool(spec.get('sub')))
     dflt = spec.get('dflt') or 'omit'
     exp = _flatten_pass(t, m, spec.get('again'), dflt=dflt)
     d = depth(ts)
@@ -305,6 +387,8 @@ def run_flatten(spec):
         cls.append('types=default_of_tree_update')
     if any(i[-1] == '' and isinstance(i[-1], str) for i in exp):
         cls.append('empty_string_leaf')
+    if spec.get('sub') and _sub_below_root(ts):
+        cls += ['branch_of_a_derived_class_below_the_root', 'derived_class=' + spec['sub']]
     e = spec.get('edit')
     if e:
         path = exp[e['at'] % len(exp)][:-1]
@@ -367,6 +451,10 @@ def _merge_case(draw):
         t = _widen(draw, t)
     if draw(st.integers(0, 3)) == 0:
         t = _with_empty(draw, t)
+    sub = draw(_subkind) if draw(st.integers(0, 5)) == 0 else None
+    if sub:     # half of the branches below the root of t (one time in four the root as well) are of a class that DERIVES from dict / Dict / dictattr; what is derived or cut out of t below inherits them:
+        # u recurses into such a branch with a branch of the exact classes (the merge then writes inside it), keeps it as it is, or IS such a branch object of t
+        t = _retype(draw, t, sub, 2, root=draw(st.integers(0, 3)) == 0)
     share = draw(st.sampled_from(['no'] * 13 + ['t_twice', 'u_holds', 'u_is'])) if not wide else 'no'
     alias = []
     if share == 't_twice':
@@ -384,6 +472,10 @@ def _merge_case(draw):
         u = [draw(_btype), []]
     if kind in ('derived', 'independent') and draw(st.integers(0, 3)) == 0:
         u = _with_empty(draw, u)       # an empty branch inside u contributes nothing: it must not wipe the branch or leaf t has at that path
+    if sub and kind in ('derived', 'independent') and draw(st.integers(0, 2)) == 0:
+        u = _retype(draw, u, sub, 3, root=draw(st.integers(0, 2)) == 0)      # u's own branches (one in three), and one time in three its root, of the derived class as well
+    if sub and kind in ('derived', 'independent') and _kind_paths(t) and not _writes_inside_sub(t, u) and draw(st.booleans()):
+        u = _graft(draw, u, draw(st.sampled_from(_kind_paths(t))), keys)     # by construction: u reaches, through plain branches, into a branch of t that is of the derived class and has a leaf to write there
     if wide and u[1] and kind not in ('self', 'empty'):
         u = [u[0], u[1] + [['w%03i' % i, ['leaf', 7]] for i in range(0, 60, 7)] + [['w500', ['leaf', 1]]]]
     paths = _branch_paths(t)
@@ -416,7 +508,9 @@ def _merge_case(draw):
             t, u = _put(t, bk, _put(tb, k, ['leaf', falsy['tv']])), _put(u, bk, _put(ub, k, ['leaf', uv]))
         else:
             t, u = _put(t, k, ['leaf', falsy['tv']]), _put(u, k, ['leaf', uv])
-    return dict(t=t, u=u, kind=kind, alias=alias, ignore=ignore, via=via, dflt=draw(st.sampled_from(_DFLT[:-1])))
+    if sub and ignore is None and draw(st.booleans()):
+        via = 'add'       # Config(..) + dict, Dict(OrderedDict below) + dict: of the cases with derived classes and no ignore list, two in three go through + (the ignore lists keep their share)
+    return dict(t=t, u=u, kind=kind, alias=alias, ignore=ignore, via=via, dflt=draw(st.sampled_from(_DFLT[:-1])), sub=sub)
 
 
 def _ign(uv, ignore):
@@ -424,17 +518,19 @@ def _ign(uv, ignore):
                for i in ignore)
 
 
-def m_merge(t, u, ignore):
-    """the statement's recursive merge on plain dicts"""
+def m_merge(t, u, ignore, tl=False, ul=False):
+    """the statement's recursive merge on plain dicts. tl / ul: the reading in which a node of a derived class (_SubM) below the root of t / of u is a leaf rather than a branch
+    (only trees that hold such nodes are judged under more than one reading)"""
     res = {k: m_copy(v) for k, v in t.items()}
     for k, uv in u.items():
-        if isinstance(uv, dict):
-            if not _has_leaf(uv):          # u contributes through its leaves only: a branch holding nothing but empty branches adds nothing
+        if isinstance(uv, dict) and not (ul and type(uv) is _SubM):
+            if not _has_leaf(uv, ul):          # u contributes through its leaves only: a branch holding nothing but empty branches adds nothing
                 continue
-            if isinstance(res.get(k), dict):
-                res[k] = m_merge(res[k], uv, ignore)
+            tv = res.get(k)
+            if isinstance(tv, dict) and not (tl and type(tv) is _SubM):
+                res[k] = m_merge(tv, uv, ignore, tl, ul)
             else:
-                res[k] = m_merge({}, uv, ignore)
+                res[k] = m_merge({}, uv, ignore, tl, ul)
         else:
             if k in res and _ign(uv, ignore):
                 continue
@@ -442,12 +538,12 @@ def m_merge(t, u, ignore):
     return res
 
 
-def _has_leaf(m):
-    return any(_has_leaf(v) if isinstance(v, dict) else True for v in m.values())
+def _has_leaf(m, ul=False):
+    return any(_has_leaf(v, ul) if isinstance(v, dict) and not (ul and type(v) is _SubM) else True for v in m.values())
 
 
 def m_copy(m):
-    return {k: m_copy(v) for k, v in m.items()} if isinstance(m, dict) else m
+    return type(m)((k, m_copy(v)) for k, v in m.items()) if isinstance(m, dict) else m
 
 
 def _conflicts(t, u, d=1):
@@ -494,12 +590,13 @@ def run_merge(spec):
     objs['u'] = build(us) if spec['kind'] != 'self' else objs['t']
     _apply_alias(objs, alias, 'u')
     t, u = objs['t'], objs['u']
-    mt, mu = model(ts), model(us)
+    sub = spec.get('sub')
+    mt, mu = model(ts, bool(sub)), model(us, bool(sub))
     ignore = spec['ignore']
     via = spec['via']
     snap_t, snap_u = snapshot(t), snapshot(u)
     if via == 'add' and ignore is None:
-        tt = Dict(t) if type(t) is not Dict else t
+        tt = Dict(t) if not isinstance(t, Dict) else t      # a Config(Dict) is added as it is
         snap_tt = snapshot(tt)
         what = 'Dict(%s) + %s' % (short(t, 150), short(u, 150))
         res = call(what, lambda: tt + u)
@@ -521,12 +618,23 @@ def run_merge(spec):
         what += ' [one branch object at several places: %s]' % alias
     exp = m_merge(mt, mu, ignore or [])
     check(isinstance(res, dict), '%s returned %s', what, type(res).__name__)
+    if sub:     # nodes of a derived class: branch or leaf on either side is not fixed by the statement (see ASSUMPTIONS); the four readings give at most four merges, any of them is accepted
+        exps = [exp] + [m_merge(mt, mu, ignore or [], tl, ul) for tl, ul in ((False, True), (True, False), (True, True))]
+        if plain(res) != exp:
+            exp = ([e for e in exps if plain(res) == e] or [exp])[0]
+        check(plain(res) == exp, '%s = %s, the recursive merge is %s (with the nodes of class %s read as leaves on one or both sides: %s)', what, res, exps[0], sub, exps[1:])
     check(plain(res) == exp, '%s = %s, the recursive merge is %s', what, res, exp)
     check(snapshot(t) == snap_t, '%s modified t: now %s (was %s)', what, plain(t), mt)
     check(snapshot(u) == snap_u, '%s modified u: now %s (was %s)', what, plain(u), mu)
     check(res is not t, '%s returned t itself', what)
     shared, lb = _conflicts(mt, mu)
     cls = ['kind=' + spec['kind'], 'via=' + via, 'ignore=%s' % (ignore,)] + _key_classes(ts, us)
+    if sub:
+        st_, su_ = _sub_below_root(ts), _sub_below_root(us)
+        cls += ['derived_class=' + sub] * bool(st_ or su_ or ts[0] == sub or us[0] == sub) + ['branch_of_a_derived_class_below_the_root_of_t'] * st_ + ['branch_of_a_derived_class_below_the_root_of_u'] * su_
+        cls += ['root_of_t_of_a_derived_class'] * (ts[0] == sub) + ['root_of_u_of_a_derived_class'] * (us[0] == sub and spec['kind'] != 'self')
+        if _writes_inside_sub(ts, us):
+            cls += ['update_writes_inside_a_branch_of_a_derived_class_of_t', 'update_writes_inside_a_branch_of_a_derived_class_of_t,via=' + via]
     for a in alias:
         cls.append('one_branch_object_at_two_places_of_t' if a[0] == 't' else ('u_holds_a_branch_object_of_t' if a[1] else 'u_is_a_branch_object_of_t'))
         if a[0] == 't' and (_at(exp, a[1]) != _at(mt, a[1]) or _at(exp, a[3]) != _at(mt, a[3])):
@@ -852,22 +960,29 @@ SUBS = [
     Sub('flatten', lambda tier: _flatten_case(), run_flatten, quick=2500, thorough=15000,
         rule='trees of depth 1-4 over dict/Dict/dictattr nodes (few percent: 60-100 keys in a branch, chains to depth 8, numeric-looking or structured string keys, one branch object hung at two places); '
              'oracle: tree_items/keys/values equal the model paths in order, items_to_tree inverts (in half of the cases the same items object is used twice, the second time with raise_if_duplicate=False), tree_getitem '
-             'returns every leaf by tuple/list/dotted path, tree untouched; in a third of the cases the tree is then edited in place (set / add / delete a leaf, graft a branch) and everything is checked again on the same object; in three cases of eight the optional parameters are written out (their own defaults by keyword / positionally, or types = the default of tree_update); leaves include the empty string. non-trivial = depth >= 2',
+             'returns every leaf by tuple/list/dotted path, tree untouched; in a third of the cases the tree is then edited in place (set / add / delete a leaf, graft a branch) and everything is checked again on the same object; in three cases of eight the optional parameters are written out (their own defaults by keyword / positionally, or types = the default of tree_update); leaves include the empty string; in one case of nine half of the branches below the root are of a class that derives from dict / Dict / dictattr (OrderedDict, Config(Dict), Section(dictattr), MyDict(dict)): tree_items may list them as branches or as leaves, tree_keys / tree_values must follow it, the round trip, tree_getitem and the untouched tree are demanded as before. non-trivial = depth >= 2',
         floor=0.3, class_floors={'flattened_again_after_in_place_edit': 0.09, 'same_items_object_twice': 0.09, 'one_branch_object_at_two_places': 0.025, 'numeric_string_keys': 0.03,
                                  'structured_keys': 0.03, 'wide_branch_60+': 0.01,
-                                 'own_defaults_passed_pos': 0.015, 'own_defaults_passed_kw': 0.02, 'types=default_of_tree_update': 0.016, 'empty_string_leaf': 0.028}),
+                                 'own_defaults_passed_pos': 0.015, 'own_defaults_passed_kw': 0.02, 'types=default_of_tree_update': 0.016, 'empty_string_leaf': 0.028,
+                                 'branch_of_a_derived_class_below_the_root': 0.04, 'derived_class=OrderedDict': 0.016, 'derived_class=Config': 0.009, 'derived_class=Section': 0.008, 'derived_class=MyDict': 0.006}),
     Sub('merge', lambda tier: _merge_case(), run_merge, quick=3000, thorough=20000,
         rule='pairs (t, u) with u derived from t by keep/drop/replace leaf<->branch/recurse/add (or independent, t itself, empty), ignore lists, via tree_update or Dict + dict; '
              'in a fifth of the cases a branch OBJECT occurs twice in t, or hangs in u and in t, or u is a branch object of t; '
              'oracle: recursive merge written from the statement on plain dicts; t and u compared by structure and node identity before/after; '
              'a quarter of the tree_update calls write out types = (dict, Dict, dictattr) and ignore (also ignore = None, []) by keyword or positionally; one derived case in twelve puts a falsy leaf '
-             '(0, the empty string, [], None) into t where u holds an ignored leaf. '
+             '(0, the empty string, [], None) into t where u holds an ignored leaf; in a sixth of the cases half of the branches of t below its root (one time in four its root too) are of a class that DERIVES from '
+             'dict / Dict / dictattr (OrderedDict, Config(Dict), Section(dictattr), MyDict(dict)), u keeps, recurses into or is grafted into them with plain branches, a third of these u get such branches of their own: '
+             'the value is accepted under each reading (branch / leaf) of those nodes, t and u must be untouched at every depth, by structure, class and identity. '
              'non-trivial = a nested branch present on both sides with differing content, or a leaf-vs-branch conflict',
         floor=0.2, class_floors={'nested_branch_merged': 0.1, 'leaf_vs_branch': 0.05, 'via=add': 0.05, 'empty_branch_of_u_over_content_of_t': 0.01,
                                  'one_branch_object_at_two_places_of_t': 0.014, 'update_writes_under_a_branch_object_that_occurs_twice': 0.006, 'u_holds_a_branch_object_of_t': 0.015,
                                  'u_is_a_branch_object_of_t': 0.014, 'numeric_string_keys': 0.03, 'structured_keys': 0.03, 'ignored_leaf_kept_out_by_a_str_or_list_or_0_only_entry': 0.007,
                                  'own_defaults_passed_pos': 0.026, 'own_defaults_passed_kw': 0.03, 'ignore=None_passed_explicitly': 0.013, 'empty_string_leaf': 0.07,
-                                 'ignored_leaf_over_falsy_leaf_of_t': 0.023, 'ignore=[]': 0.011, "ignore=['', None]": 0.014}),
+                                 'ignored_leaf_over_falsy_leaf_of_t': 0.023, 'ignore=[]': 0.011, "ignore=['', None]": 0.014,
+                                 'update_writes_inside_a_branch_of_a_derived_class_of_t': 0.01, 'update_writes_inside_a_branch_of_a_derived_class_of_t,via=add': 0.002,
+                                 'branch_of_a_derived_class_below_the_root_of_t': 0.04, 'branch_of_a_derived_class_below_the_root_of_u': 0.02,
+                                 'root_of_t_of_a_derived_class': 0.02, 'root_of_u_of_a_derived_class': 0.012,
+                                 'derived_class=OrderedDict': 0.018, 'derived_class=Config': 0.009, 'derived_class=Section': 0.008, 'derived_class=MyDict': 0.008}),
     Sub('session', lambda tier: _session_case(), run_session, quick=1500, thorough=10000,
         rule='t0 and two updates derived from it (or from one another) are built ONCE, with one ignore list object; 2-4 calls tree_update / Dict + dict whose operands are those same objects or the '
              'results of earlier calls, mostly with t0 on the left; every call judged by the single-call merge oracle on the original content; all operands, wrapped operands and earlier '
